@@ -35,9 +35,19 @@ def run(chk):
         for e, txt in res["findings"][:2]:
             chk.report("packer:%s:%s" % (name, e.get("op")), "real chunk maker (%s, maxBytes=%s maxRecords=%s) step differs from Packer: %s" % (mode, mb, mr, json.dumps(e)[:700]),
                        {"event.json": e, "group": name})
+    # chunk ids: unique, in creation order, for every behaviour of the wall clock (scripted through vhook.Clock)
+    r = chk.tlc_mc("ChunkId", "ChunkId_quick.cfg", timeout=300)
+    if not r["ok"]:
+        raise vlib.Inconclusive("spec-level counterexample in ChunkId:\n%s" % r.get("counterexample", "")[:2000])
+    st += r.get("distinct", 0); tr += r.get("generated", 0)
+    ri = fncommon.run_fn(chk, "idg", "ChunkIdTrace", "ChunkIdTrace.cfg", shards=4, max_findings_per_shard=2, tag="-id")
+    events += ri["events"]; cases += ri["cases"]
+    for e, txt in ri["findings"][:1]:
+        chk.report("chunkid:clock", "chunk id generator under a scripted wall clock: id %s for reading %s is not the id of ChunkId!Gen (ids must stay unique and in creation order when the clock repeats or steps backwards)" % (e.get("id"), e.get("clock")), {"event.json": e})
+    cov["chunk_id_clock_sequences"] = ri["cases"]
     cov.update({"states": st, "transitions": tr, "traces_validated_against_impl": events, "evaluations": cases, "distinct_nontrivial": cases,
                 "exhaustive": True,
-                "rule": "every schedule of depth %s over {write of each size, flush} for six settings (Forward, PackedForward with bytes-only and records-only limits, CompressedPackedForward, Datadog with both and bytes-only limits); sizes sit around the limits (exact fit, one byte over, a single record over the limit)" % ("6-8" if thorough else "4-6"),
+                "rule": "every schedule of depth %s over {write of each size, flush} for six settings (Forward, PackedForward with bytes-only and records-only limits, CompressedPackedForward, Datadog with both and bytes-only limits); sizes sit around the limits (exact fit, one byte over, a single record over the limit); chunk ids: every sequence of %s wall-clock readings over 4 values (repeats and backward steps) + 200 seeded sequences of 40 readings with NTP-like steps" % ("6-8" if thorough else "4-6", 8 if thorough else 6),
                 "samples": [json.loads(l) for l in open(sample).read().splitlines()[1:5]]})
     chk.assumptions += ["chunks are decoded by generic MessagePack / gzip+JSON decoding, independent of the repository's encoder and ChunkDecoder",
                         "limits are set through tag-guarded accessors to small values; the Datadog accounting (brackets, delimiters) is modelled as coded"]
